@@ -10,3 +10,6 @@ pub use crate::util::alloc::allocator::{
     align_allocation, align_allocation_inner, align_allocation_no_fill, get_maximum_aligned_size,
     get_maximum_aligned_size_inner,
 };
+
+/// `util::metadata::side_metadata::helpers` (module-private address arithmetic and bit searches).
+pub use crate::util::metadata::side_metadata::helpers::verif_hooks as side_helpers;
